@@ -22,6 +22,8 @@ func checkC12(c *Ctx) {
 	c.Rule("C12-R8", "the rune parser, which runs before the mouse parsers, removes input only as decoded characters (with an event, or by the decoder's count): an 8-bit CSI (0x9b) it cannot decode stays in the buffer for the mouse parsers")
 	c.Rule("C12-R9", "a mouse report consumes exactly the bytes it matched (both protocols): the next report of a drag starts where this one ended")
 	c.Expect("C12-R9", 2)
+	c.Rule("C12-R10", "every mouse report decodes to one event: no complete-return of a mouse parser is reachable without the append (no report is filtered away after decoding: drags carry the motion bit, too)")
+	c.Expect("C12-R10", 2)
 	c.Expect("C12-R8", 2)
 	c.Rule("C12-R7", "the bytes of a report reach the parser as they were read (a chunk queued for the main loop owns its backing array)")
 	c.Expect("C12-R7", 1)
@@ -51,6 +53,7 @@ func checkC12(c *Ctx) {
 			c.asRule("C02-R9", "C12-R8", func() { c02Consumption(c, p, pi) })
 		}
 	}
+	checkConsumedDelivers(c, p, "C12-R10", func(n string) bool { return n == "parseSgrMouse" || n == "parseXtermMouse" })
 	// R9: a mouse report consumes exactly its own bytes — the next report (or key) starts where this
 	// one ended; one byte more or less and every following report of a drag decodes from the wrong offset
 	for _, pi := range inputParsers(p) {
